@@ -28,7 +28,7 @@ from pathlib import Path
 
 ROOT = Path(__file__).resolve().parent.parent
 REPO = Path(os.environ.get("JSVERIF_REPO", "/repo")).resolve()
-EVIDENCE_DIR = ROOT / "evidence"
+EVIDENCE_DIR = Path(os.environ.get("JSVERIF_EVIDENCE_DIR", ROOT / "evidence"))
 REPLAY_DIR = ROOT / "replays"
 KNOWN_FILE = ROOT / "known_findings.json"
 
